@@ -19,7 +19,7 @@ META = {
             "requires every call to be the model's action: an allowed outcome, the model's return value, the model's zone "
             "content after every call, and the same answer through a read-only transaction.",
     "note": "Exhaustive only inside the Gen/MC constants (3 owner names + one out-of-zone name, 8 types, 2 rdatas, 2 TTLs, "
-            "7 initial zones; pairs on a trimmed universe); longer histories are seeded TLC simulations.  Order of rdatasets "
+            "up to 10 initial zones; pairs on a trimmed universe); longer histories are seeded TLC simulations.  Order of rdatasets "
             "in a node, exception subclasses beyond the documented families and the outcomes the documentation leaves open "
             "(listed in notes/X08.md) are free.  Trusted: TLC, the Json module, the projection in drivers/x08_direct.py.",
     "technique": "TLA+ reference model + TLC exhaustive check; TLC-generated histories replayed on the code; TLC trace validation",
